@@ -1,5 +1,6 @@
 import MechVerif.Driver.C02
 import MechVerif.Driver.C06
+import MechVerif.Model.StrLit
 namespace MechVerif.Driver.S08
 open MechVerif.Prec MechVerif.Driver
 
@@ -31,8 +32,25 @@ def hasNumberedSection (src : String) : Bool :=
     let ds := p.1.toList.takeWhile Char.isDigit
     !ds.isEmpty && ((p.1.toList.drop ds.length).take 2 == ['.', ' ']) && p.2.startsWith "-----")
 
+/-- some code fence (backticks or tildes) is opened without the `mech` code identifier -/
 def hasPlainFence (src : String) : Bool :=
-  (src.splitOn "\n").any (fun l => l.startsWith "```" && l.length > 3 && !(l.startsWith "```mech"))
+  ((src.splitOn "\n").foldl (fun (st : Bool × Bool) l =>
+    if l.startsWith "```" || l.startsWith "~~~" then
+      (if st.1 then (false, st.2) else (true, st.2 || !((l.drop 3).toString.startsWith "mech")))
+    else st) (false, false)).2
+
+/-- `class:hex` items of a string body -/
+def parseStrSpec (spec : String) : Option (List StrLit.G) :=
+  if spec == "-" then some [] else
+  (spec.splitOn ",").mapM (fun it => match it.splitOn ":" with
+    | [c, hx] =>
+      (match S06.unhexStr hx with
+       | none => none
+       | some t =>
+         let cls : Option StrLit.Cls := match c with
+           | "e" => some .escapable | "p" => some .plain | "n" => some .newline | "q" => some .quote | "b" => some .backslash | _ => none
+         cls.map (fun k => (⟨k, t.toList⟩ : StrLit.G)))
+    | _ => none)
 
 def runC08 (fields : List String) (obs : String) : String × String × String :=
   let bad := ("bad-case", "bad-case", "-")
@@ -51,6 +69,14 @@ def runC08 (fields : List String) (obs : String) : String × String × String :=
           | some (t, []) =>
             "F=" ++ hexOfText ((fmtT t ++ "\n").toList) ++ "|R=same|I=same|T=" ++ sexprT t ++ "|U=" ++ sexprT t
           | _ => "unparsed-formula"
+        else if cls == "string" then
+          match parseStrSpec (more.headD "-") with
+          | some gs =>
+            (match StrLit.scan (gs ++ [StrLit.quoteG]) with
+             | some (content, []) =>
+               "F=" ++ hexOfText (("x := \"" ++ String.ofList (StrLit.escapeChars content) ++ "\"\n").toList) ++ "|R=same|I=same|S=" ++ hexOfText content
+             | _ => "unscannable-string")
+          | none => "bad-case"
         else obs
       let ok := r == "R=same" && i == "I=same"
       let verdict := if ok then "ok"
